@@ -236,13 +236,23 @@ def build_ops():
         out = {"arr": [], "pt": [], "direct": {}}
         E = {"single": {}, "variadic": {}}
 
-        def arr(tag, ann, toks, obj, objdesc, pre=None):
+        def arr(tag, ann, toks, obj, objdesc, pre=None, mid=None):
             h = {}
 
             def body():
-                if pre:
+                if callable(pre):
+                    pre()
+                elif pre:
                     isinstance(Z(pre), Float[np.ndarray, "a"])
                 h["pre"] = R.observe_memo()[0]
+                if mid is not None:
+                    # earlier activity IN THE SAME context that is unrelated because it failed: a rejected (or raising)
+                    # check; the probe's expected verdict is decided from the bindings in force BEFORE it
+                    try:
+                        if mid() is not False:
+                            raise MachineryFailure(f"probe {tag}: the interposed check did not fail")
+                    except AnnotationError:
+                        pass
                 h["res"] = R.verdict(lambda: R.matches(obj, ann))
                 h["post"] = R.observe_memo()[0]
             with jaxtyped("context"):      # a fresh context, so that the resulting bindings can be observed
@@ -264,6 +274,24 @@ def build_ops():
         arr("rebuilt_union_notarray", UN, [a, b], "str", {"inst": False, "dtin": True, "shape": []})
         arr("ctx_mismatch", Float[np.ndarray, "a"], [a], Z(3), {"inst": True, "dtin": True, "shape": [3]}, pre=2)
         arr("ctx_match", Float[np.ndarray, "a"], [a], Z(2), {"inst": True, "dtin": True, "shape": [2]}, pre=2)
+        # rejected checks between the bindings and the probe (same context)
+        v = T(["*"], "ident", "v")
+        bind_bv = lambda: isinstance(Z(3, 1), Float[np.ndarray, "#*v"])
+        bind_v = lambda: isinstance(Z(3, 1), Float[np.ndarray, "*v"])
+        mids = {
+            "pytree_widen_then_reject": (bind_bv, lambda: isinstance((Z(3, 4), Z(5, 5, 5)), PyTree[Float[np.ndarray, "#*v"]])),
+            "pytree_bind_then_reject": (bind_bv, lambda: isinstance((Z(2), Z(3)), PyTree[Float[np.ndarray, "a"]])),
+            "array_bind_then_reject": (bind_bv, lambda: isinstance(Z(2, 3), Float[np.ndarray, "a a"])),
+            "array_trailing_bind_variadic_reject": (bind_v, lambda: isinstance(Z(4, 4, 2), Float[np.ndarray, "*v a"])),
+            "array_widen_then_reject": (bind_bv, lambda: isinstance(Z(3, 4, 2), Float[np.ndarray, "#*v 3"])),
+            "array_bind_then_raise": (bind_bv, lambda: isinstance(Z(2, 3), Float[np.ndarray, "a zz+1"])),
+            "union_leaf_reject": (bind_bv, lambda: isinstance((Z(2), "s"), PyTree[typing_Union[Float[np.ndarray, "a"], int]])),
+        }
+        for mname, (pre_fn, mid) in mids.items():
+            arr("mid_" + mname + ":v", Float[np.ndarray, "*v"], [v], Z(3, 1), {"inst": True, "dtin": True, "shape": [3, 1]},
+                pre=pre_fn, mid=mid)
+            arr("mid_" + mname + ":a", Float[np.ndarray, "a"], [a], Z(7), {"inst": True, "dtin": True, "shape": [7]},
+                pre=pre_fn, mid=mid)
         # PyTree probes, in a fresh context
         S0 = {"pieces": [], "dots": "none", "str": ""}
         L = ["arr", [a], "f"]
